@@ -54,7 +54,13 @@ def routes(draw, untyped, equal_totals):
     el = st.one_of(ops.read_ops(), *extra) if extra else ops.read_ops()
     return {"form": draw(st.sampled_from(ROUTE_FORMS)),
             "md_none": draw(st.sampled_from(["none", "nones", "empties"])),
-            "history": draw(st.lists(el, max_size=4))}
+            "history": draw(st.lists(el, max_size=4)),
+            # the content is reached by doubling a table built with halved
+            # values in place, after some reads (and followed by the
+            # history above)
+            "halved": draw(st.sampled_from([None, None, None, "sample",
+                                            "observation"])),
+            "reads": draw(st.lists(ACCESS, max_size=3))}
 
 
 def _equal_totals(rows):
@@ -110,7 +116,7 @@ def _apply_read(t, op):
 
 
 def _build_route(spec, route):
-    s = dict(spec)
+    s = {k: v for k, v in spec.items() if k != "__exact__"}
     s["form"] = route["form"]
     for k in ("obs_md", "samp_md"):
         if s.get(k) is None:
@@ -119,7 +125,14 @@ def _build_route(spec, route):
                 s[k] = [None] * n
             elif route["md_none"] == "empties":
                 s[k] = [{} for _ in range(n)]
+    halved = route.get("halved") if spec.get("__exact__") else None
+    if halved:
+        s["rows"] = [[x / 2 for x in r] for r in s["rows"]]
     t = gen.build(s, with_history=False)
+    if halved:
+        for op in route.get("reads", []):
+            ops.apply_op(t, op)
+        t.transform(lambda v, i, md: v * 2, axis=halved, inplace=True)
     for op in route["history"]:
         t = _apply_read(t, op)
     return t
@@ -246,7 +259,12 @@ EQUAL = {"a==b": True, "b==a": True, "a!=b": False, "b!=a": False,
 
 
 def check(case, rec):
-    spec = case["spec"]
+    spec = dict(case["spec"])
+    # halving and doubling is exact for these value kinds only
+    spec["__exact__"] = case.get("kind") in ("int", "dyadic", "count")
+    rec.cls("route:halved-then-doubled-in-place",
+            spec["__exact__"] and any(r.get("halved")
+                                      for r in case["routes"]))
     tabs = [_build_route(spec, r) for r in case["routes"]]
     lays = [observe.layout(t) for t in tabs]
     for la in lays:
@@ -357,6 +375,7 @@ def check(case, rec):
         # integer content / vector totals it was drawn for
         route_b["history"] = [o for o in route_b["history"]
                               if o["op"] != "subsample_full"]
+        route_b["halved"] = None   # exact only for the original content
         if s2.get("type") is not None:
             # transpose() does not carry the table type, so the
             # "transpose twice" route is content preserving only when untyped
